@@ -10,6 +10,7 @@
 From Coq Require Import List NArith Bool.
 From Verif Require Import Codec.Model Codec.ProofsRLP Codec.ProofsComb Codec.ProofsObjects Codec.ProofsTop
   Codec.ProofsItem Codec.ProofsRaw Codec.ProofsSign Codec.ProofsNorm Codec.ProofsAcc Codec.ProofsBind Codec.ProofsRoot.
+From Verif Require Chain.Model Compose.TxIdBind Compose.TxIdBindExamples.
 Import ListNotations.
 Open Scope N_scope.
 
@@ -340,3 +341,42 @@ Print Assumptions block_decode_canonical_except.
 Print Assumptions tx_signing_fields_injective.
 Print Assumptions tx_hash_preimage_injective.
 Print Assumptions header_fields_injective.
+
+(* ================================================================ composition *)
+(* C11 <-> C09 (Compose/TxIdBind.v).  C09's chain-level theorems (a transaction is on a chain at most once, inside its window;
+   the lookup paths agree) are stated over an abstract universe of transaction records (id, chain tag, block-ref number,
+   expiration, depends-on, origin) under the premise "an id determines the record".  For the records of the transactions the
+   decoders above return (TxIdBind.view H t o, o the 20 recovered origin bytes) that premise is the id binding of section 4:
+   under H_inj equal Transaction.ID()s give equal signed parts, equal origins, hence equal records — the positive form of
+   tx_signed_field_change_changes_id, extended to the origin.  Properties/C09.v (13-17) restates C09's theorems with its
+   premise replaced by H_inj. *)
+Section CompositionC09.
+  Variable H : bytes -> bytes.
+  Hypothesis H_inj : forall a b, H a = H b -> a = b.
+  Theorem tx_id_binds_chain_record t1 t2 o1 o2 : wfp c_tx t1 -> wfp c_tx t2 -> length o1 = length o2 ->
+    go_tx_id H t1 (Some o1) = go_tx_id H t2 (Some o2) ->
+    signed_part t1 = signed_part t2 /\ o1 = o2 /\ TxIdBind.view H t1 o1 = TxIdBind.view H t2 o2.
+  Proof. exact (TxIdBind.id_binds_record H H_inj t1 t2 o1 o2). Qed.
+  Theorem decoded_tx_records_determined_by_id : forall r1 r2, TxIdBind.c11_universe H r1 -> TxIdBind.c11_universe H r2 ->
+    Chain.Model.tx_id r1 = Chain.Model.tx_id r2 -> r1 = r2.
+  Proof. exact (TxIdBind.c11_universe_inj H H_inj). Qed.
+End CompositionC09.
+(* every decoded transaction has a record in that universe *)
+Theorem decoded_tx_has_chain_record H b t o : go_decode_tx b = Some t -> length o = 20%nat ->
+  TxIdBind.c11_universe H (TxIdBind.view H t o).
+Proof. exact (TxIdBind.decoded_in_universe H b t o). Qed.
+(* non-vacuity: the injective toy hash, two decodable transactions with different signed parts and hence different record ids *)
+Example ex_chain_record :
+  (forall a b, TxIdBindExamples.x_H a = TxIdBindExamples.x_H b -> a = b) /\
+  wfp c_tx TxIdBindExamples.x_ta /\ wfp c_tx TxIdBindExamples.x_tb /\
+  signed_part TxIdBindExamples.x_ta <> signed_part TxIdBindExamples.x_tb /\
+  Chain.Model.tx_id TxIdBindExamples.x_va <> Chain.Model.tx_id TxIdBindExamples.x_vb.
+Proof.
+  split; [exact TxIdBindExamples.x_H_inj|]. split; [exact (proj1 TxIdBindExamples.x_wf)|].
+  split; [exact (proj1 (proj2 TxIdBindExamples.x_wf))|]. exact TxIdBindExamples.x_binding.
+Qed.
+
+Print Assumptions tx_id_binds_chain_record.
+Print Assumptions decoded_tx_records_determined_by_id.
+Print Assumptions decoded_tx_has_chain_record.
+Print Assumptions ex_chain_record.
